@@ -70,3 +70,52 @@ CLAUSES = [
                 "closure sizes stay within the limit; non-trivial: a word accepted within the limit by a PDA with push and pop/replace moves"),
 ]
 KNOWN_PREDICATES = {}
+
+
+# ---- deep closures: limits above the default of 1000 ----
+
+def deep_spec(n_names, eps, sym, other):
+    q0, q1, q2, q3 = n_names
+    return {"Q": [q0, q1, q2, q3], "S": sorted([sym, other]), "G": ["$", "X"],
+            "d": [[q0, eps, eps, q1, "$"], [q1, sym, eps, q1, "X"], [q1, other, eps, q2, eps], [q2, eps, "X", q2, eps], [q2, eps, "$", q3, eps]],
+            "q0": q0, "F": [q3], "eps": eps}
+
+
+def run_deep(case):
+    spec, n, limit = case["pda"], case["n"], case["limit"]
+    sym, other = case["sym"], case["other"]
+    P = BP.mk_pda(spec)
+    old = GambaTools.pda_epsilon_closure_max_iterations
+    GambaTools.pda_epsilon_closure_max_iterations = limit
+    try:
+        out = {}
+        for w in (sym * n + other, sym * n, sym * (n // 2) + other + sym):
+            want = RP.accepts_bounded(spec, w, len(w) + 2)       # exact for this family: every push consumes an input symbol
+            got = lib(pda_accepts_word, P, w)
+            if got is True and not want:
+                raise Fail("unsound", "pda_accepts_word accepts a word of length %d without an accepting computation (limit %d)" % (len(w), limit))
+            sizes = RP.closure_sizes(spec, w, limit)
+            if want and all(s <= limit for s in sizes) and got is not True:
+                raise Fail("incomplete_deep", "pda_accepts_word rejects %s^%d %s with limit %d although all closures have at most %d configurations (largest %d)"
+                           % (sym, n, other, limit, limit, max(sizes)))
+            out[len(w)] = (want, max(sizes))
+    finally:
+        GambaTools.pda_epsilon_closure_max_iterations = old
+    return {"nt": True, "cls": ["limit_above_default" if limit > 1000 else "limit_at_most_default", "closure_above_1000" if n + 2 > 1000 else "closure_small"],
+            "out": {"n": n, "limit": limit}}
+
+
+@st.composite
+def deep_cases(draw, tier):
+    eps = draw(st.sampled_from(["", "ε", "_"]))
+    names = draw(G.names(4))
+    sym, other = draw(st.sampled_from([("a", "b"), ("b", "a"), ("0", "1")]))
+    n = draw(st.sampled_from([1001, 1100, 1250] if tier == "quick" else [1001, 1100, 1250, 1500, 1998]))
+    limit = draw(st.sampled_from([n + 2, n + 3, 2000, 4000, 1000, 500]))
+    return {"pda": deep_spec(names, eps, sym, other), "n": n, "limit": limit, "sym": sym, "other": other}
+
+
+CLAUSES.append(
+    Clause("deep_closure", deep_cases, run_deep, quick=4, thorough=40, watchdog=300,
+           rule="family a^n b (n in 1001..1998, states renamed) whose accepting run needs an eps-closure of n+2 configurations x limits around and above "
+                "the default 1000 ({n+2, n+3, 2000, 4000, 1000, 500}); reference: configuration search (exact for this family); every case is non-trivial"))
